@@ -645,7 +645,7 @@ pub fn generate(thorough: bool, rng: &mut Rng, ops: &mut Vec<String>, stats: &mu
         steps.push("o".into());
         ops.push(format!("c16 hist {}", steps.join(";")));
     }
-    let n_rep = if thorough { 3000 } else { 400 };
+    let n_rep = if thorough { 6000 } else { 400 };
     for _ in 0..n_rep {
         let n = rng.range(1, 8);
         let mut items = Vec::new();
@@ -686,7 +686,7 @@ pub fn generate(thorough: bool, rng: &mut Rng, ops: &mut Vec<String>, stats: &mu
     }
     // repair of pack files: index files listing packs under `packs` / `packs_to_delete` (tree or data), pack files
     // missing in hot / hot-only / truncated / in sync / not listed at all
-    let n_repp = if thorough { 1500 } else { 150 };
+    let n_repp = if thorough { 5000 } else { 150 };
     for _ in 0..n_repp {
         let np = rng.range(1, 7);
         // kind of each pack label (consistent over all index files, except for an occasional contradicting listing)
@@ -733,7 +733,7 @@ pub fn generate(thorough: bool, rng: &mut Rng, ops: &mut Vec<String>, stats: &mu
         let j = |v: &Vec<String>| if v.is_empty() { "-".to_string() } else { v.join("+") };
         ops.push(format!("c16 repairp {} {}", files.iter().map(|(a, b)| format!("{}|{}", j(a), j(b))).collect::<Vec<_>>().join(";"), items.join(";")));
     }
-    let n_repo = if thorough { 300 } else { 24 };
+    let n_repo = if thorough { 1000 } else { 24 };
     for _ in 0..n_repo {
         stats.hit("repo-level");
         ops.push(format!("c16 repo {}", rng.below(1 << 32)));
@@ -741,7 +741,7 @@ pub fn generate(thorough: bool, rng: &mut Rng, ops: &mut Vec<String>, stats: &mu
     // directed histories: several backups with different trees, forget, a prune that only MARKS packs (tree packs end up
     // under `packs_to_delete`, still in both stores), then the hot store is lost (completely / partly) and repaired;
     // afterwards more commands on the repaired repository (deleting / recovering the marked packs, repair index, ...)
-    let n_hist = if thorough { 300 } else { 24 };
+    let n_hist = if thorough { 1000 } else { 24 };
     for k in 0..n_hist {
         let mut st: Vec<&str> = Vec::new();
         for _ in 0..2 + rng.below(2) {
